@@ -29,12 +29,14 @@ ASSUMPTIONS = ["the driver paths are taken as given (their structure is C15, the
                "the SDE drift function of the Levy Libor model is taken as given (the model's own sde_drift, evaluated by the "
                "reference at each component's own state and left end point); its formula is not decided here",
                "discount-factor clause of C16 (df(0)=1, positive, continuous, non-increasing) is a pure function of t: not decided",
-               "copula (n-d) drivers are not covered"]
+               "copula drivers: 2-d Levy-copula chains on small fixed grids (20% of the worlds), coefficients Constant (m x 2), "
+               "diag(x), sigma(t)*x; 3-d drivers and the Libor drift with a copula driver are not covered"]
 TIERS = {
     "quick": {"worlds": 300, "wall": 500, "shrink_budget": 40,
               "required_probes": ["c16.single_path_checked", "c16.coupled_path_checked", "c16.diag_coefficient",
                                   "c16.maxstep_active", "c16.level_ge_2", "c16.fixing_inside_the_horizon",
-                                  "c16.state_dependent_sde_drift"]},
+                                  "c16.state_dependent_sde_drift", "c16.nd_single_path_checked",
+                                  "c16.nd_coupled_path_checked"]},
     "thorough": {"worlds": 8000, "wall": 3300, "shrink_budget": 100,
                  "required_probes": ["c16.single_path_checked", "c16.coupled_path_checked", "c16.diag_coefficient",
                                      "c16.maxstep_active", "c16.level_ge_2"]},
@@ -104,6 +106,8 @@ def _install():
 
 def generate(seed, tier="quick"):
     r = sub_rng(seed, "c16.scenario")
+    if r.random() < 0.2:
+        return generate_nd(r, seed)
     return {"world_seed": seed, "driver": r.choice(list(DRIVERS)), "coef": r.choice(["const", "diag", "diag", "libor", "libor", "libormodel", "libormodel"]),
             "m": r.choice([2, 3]), "tenor_fracs": sorted(r.sample([0.15, 0.3, 0.45, 0.6, 0.75, 0.9, 1.2, 1.5], 4)),
             "c": r.choice([1.0, 0.5, -2.0]), "x0": r.choice([1.0, 0.03, 100.0]), "h": r.choice([0.1, 0.05, 0.2]),
@@ -119,6 +123,12 @@ def shrink_candidates(sc):
         c.update(kw)
         return c
 
+    if sc.get("nd"):
+        if sc["n"] > 3:
+            yield mod(n=3)
+        if sc["max_level"] > 1:
+            yield mod(max_level=1)
+        return
     if sc["n"] > 3:
         yield mod(n=3)
     if sc["engine"] == "mlmc" and sc["max_level"] > 1:
@@ -177,6 +187,8 @@ def execute(wd, sc):
     from rpylib.montecarlo.multilevel.engine import Engine as ML
     from rpylib.montecarlo.standard.engine import Engine as STD
 
+    if sc.get("nd"):
+        return execute_nd(wd, sc)
     _install()
     V, errors = [], []
     wd.c16 = {"driver": [], "drifts": {}}
@@ -312,3 +324,202 @@ def execute(wd, sc):
 def summarise(sc, o):
     return {"scenario": sc, "violations": [v["sig"] for v in o["violations"]], "errors": o.get("errors", [])[:2],
             "info": o.get("info")}
+
+
+# =====================================================================================================
+# copula (2-d) drivers: same oracle with a matrix coefficient a(t, x) in R^(m x d)
+# =====================================================================================================
+_installed_nd = False
+
+
+def _install_nd():
+    global _installed_nd
+    if _installed_nd:
+        return
+    import rpylib.process.markovchain.markovchainlevycopula as mclc
+    import rpylib.process.coupling.couplinglevycopula as clc
+    import rpylib.process.coupling.couplingsde as csde
+
+    def snap(path):
+        return {"times": np.array(path.times(), dtype=float, copy=True),
+                "diff": np.array(path.diffusion_path, dtype=float, copy=True),
+                "jump": np.array(path.jump_path, dtype=float, copy=True)}
+
+    o1 = mclc.MarkovChainLevyCopula.simulate_one_path
+
+    def sim1(self):
+        p = o1(self)
+        wd = rngseam.ACTIVE
+        if wd is not None and getattr(wd, "c16", None) is not None:
+            wd.c16["driver"].append(("single", snap(p), np.array(self.process_drift(), dtype=float).reshape(-1)))
+        return p
+
+    mclc.MarkovChainLevyCopula.simulate_one_path = sim1
+    o2 = clc.CouplingProcessLevyCopula.simulate_one_path_with_coupling
+
+    def sim2(self):
+        p = o2(self)
+        wd = rngseam.ACTIVE
+        if wd is not None and getattr(wd, "c16", None) is not None:
+            wd.c16["driver"].append(("coupled", snap(p), np.array(self.fine_process.process_drift(), dtype=float).reshape(-1), self.level))
+        return p
+
+    clc.CouplingProcessLevyCopula.simulate_one_path_with_coupling = sim2
+    _installed_nd = True
+
+
+def _a_nd(coef, c, t, x, sigma, tenors):
+    m = len(x)
+    if coef == "const":
+        return np.full((m, 2), c)
+    if coef == "diag":
+        return np.diag(x)
+    sig = sigma.copy()
+    sig[np.asarray(tenors[:-1]) <= t, :] = 0.0
+    return sig * x.reshape(-1, 1)
+
+
+def _euler_nd(x0, coef, c, mu, times, dW, dL, sigma, tenors):
+    """X_{i+1} = X_i + a(t_i, X_i) (mu dt_i + dW_i + dL_i); dW, dL: (d, n-1); returns (m, n)"""
+    x = np.array(x0, dtype=float)
+    xs = [x.copy()]
+    for i in range(len(times) - 1):
+        a = _a_nd(coef, c, times[i], x, sigma, tenors)
+        x = x + a @ (mu * (times[i + 1] - times[i]) + dW[:, i] + dL[:, i])
+        xs.append(x.copy())
+    return np.array(xs).T
+
+
+def generate_nd(r, seed):
+    from . import c02nd
+
+    proc = c02nd.generate_process(r)
+    coef = r.choice(["const", "diag", "libor", "libor"])
+    m = 2 if coef == "diag" else r.choice([1, 2, 3])
+    return {"world_seed": seed, "nd": True, "margins": proc["margins"][:2], "copula": proc["copula"], "method": proc["method"],
+            "h": r.choice([0.1, 0.05]), "ngrid": r.choice([4, 6]), "coef": coef, "m": m, "c": r.choice([1.0, 0.5, -2.0]),
+            "tenor_fracs": sorted(r.sample([0.15, 0.3, 0.45, 0.6, 0.75, 0.9, 1.2, 1.5], 4)),
+            "maturity": r.choice([0.25, 1.0]), "engine": r.choice(["standard", "mlmc", "mlmc"]), "max_level": r.choice([1, 2]),
+            "n": r.choice([3, 6]), "seed": r.choice([None, 11])}
+
+
+def execute_nd(wd, sc):
+    from rpylib.distribution.sampling import SamplingMethod
+    from rpylib.grid.spatial import CTMCUniformGrid
+    from rpylib.model.levydrivensde.levydrivensde import LevyDrivenSDEModel, Constant, DiagX, LiborSDEFunction
+    from rpylib.model.levymodel.levymodel import ModelType
+    from rpylib.model.utils import create_levy_model, create_levy_copula_model, create_clayton_copula, create_independent_copula
+    from rpylib.montecarlo.configuration import ConfigurationMultiLevel, ConfigurationStandard
+    from rpylib.montecarlo.multilevel.engine import Engine as ML
+    from rpylib.montecarlo.standard.engine import Engine as STD
+    from rpylib.process.coupling.couplingsde import CouplingSDE
+    from rpylib.process.markovchain.markovchainsde import MarkovChainSDE
+    from rpylib.product.payoff import PayoffOnTheFly
+    from rpylib.product.product import Product
+    from rpylib.product.underlying import Spot
+    from . import c02nd
+
+    _install()
+    _install_nd()
+    V, errors = [], []
+    wd.c16 = {"driver": [], "drifts": {}}
+    coef, c, T, m = sc["coef"], sc["c"], sc["maturity"], sc["m"]
+    cls = "copula-driver|a=" + {"const": "constant", "diag": "diag(x)", "libor": "sigma(t)*x"}[coef]
+
+    def add(sig, detail):
+        if not any(v["sig"] == sig for v in V):
+            V.append({"sig": sig, "oracle": sig.split("|")[0], "detail": detail})
+
+    sigma = np.array([[0.5, 1.5], [0.8, 1.25], [1.0, 1.0]])[:m]
+    tenors = np.array(sc["tenor_fracs"][:m + 1]) * T
+    x0 = np.array([0.02, 0.025, 0.03])[:m].copy() if coef != "const" else np.array([1.0, 0.5, 2.0])[:m].copy()
+    drift_levels = {}
+    try:
+        models = []
+        for name in sc["margins"]:
+            mt, kw = c02nd.MARGINS[name]
+            models.append(create_levy_model(ModelType[mt])(**{k: v for k, v in kw.items()}))
+        cop = sc["copula"]
+        copula = create_independent_copula() if cop["kind"] == "independent" else create_clayton_copula(theta=cop["theta"], eta=cop["eta"])
+        driver = create_levy_copula_model(models, copula)
+        if coef == "const":
+            a = Constant(m, 2, c)
+        elif coef == "diag":
+            a = DiagX(2)
+        else:
+            a = LiborSDEFunction(sigma=sigma.copy(), tenors=tenors)
+        model = LevyDrivenSDEModel(driver=driver, x0=x0.copy(), a=a)
+        grid = CTMCUniformGrid.create_from_fixed_nb_of_points(h=sc["h"], nb_of_points=sc["ngrid"], dimension=2)
+        method = SamplingMethod[c02nd.ND_METHODS[sc["method"]]]
+        product = Product(payoff_underlying=Spot(), payoff=PayoffOnTheFly(lambda u: float(np.sum(u))), maturity=T)
+        if sc["engine"] == "standard":
+            proc = MarkovChainSDE(model, method, grid)
+            STD(ConfigurationStandard(mc_paths=sc["n"], nb_of_processes=1, seed=sc["seed"]), proc).price(product)
+        else:
+            cp = CouplingSDE(model=model, grid=grid, method=method)
+            # chain drifts level by level, as the engine builds them (recorded through the 1-d hooks' nd twin below)
+            import rpylib.process.coupling.couplingsde as csde
+
+            orig_next = csde.CouplingSDE.next_level
+
+            def rec_next(self, *a_, **k_):
+                r_ = orig_next(self, *a_, **k_)
+                drift_levels[self.level] = np.array(self.driver_coupling_process.fine_process.process_drift(), dtype=float).reshape(-1)
+                return r_
+
+            csde.CouplingSDE.next_level = rec_next
+            try:
+                ML(ConfigurationMultiLevel(initial_level=0, maximum_level=sc["max_level"], initial_mc_paths=sc["n"],
+                                           nb_of_processes=1, seed=sc["seed"]), cp).price_with_constant_mc_paths_and_level(product)
+            finally:
+                csde.CouplingSDE.next_level = orig_next
+        wd.probes["c16.nd_run"] += 1
+    except HarnessError:
+        raise
+    except Exception as e:
+        import traceback
+
+        errors.append({"kind": type(e).__name__, "msg": str(e)[:160], "where": traceback.extract_tb(e.__traceback__)[-1].name})
+        wd.probes["c16.run_raised"] += 1
+    samples = [s for s in wd.samples if "drift" in s]
+    drivers = wd.c16["driver"]
+    pattern, nontrivial = [], False
+    if len(samples) != len(drivers):
+        errors.append({"kind": "reference", "msg": f"{len(samples)} SDE paths vs {len(drivers)} driver paths"})
+    else:
+        level0_drift = None
+        for s, d in zip(samples, drivers):
+            times, dp = s["times"], d[1]
+            if times.shape != dp["times"].shape or np.any(times != dp["times"]):
+                add(f"C16.times|SDE path is not on its driver's own time grid|{d[0]}|{cls}", {})
+                continue
+            pattern.append(min(int(times.size), 6))
+            if times.size >= 3:
+                nontrivial = True
+            if d[0] == "single":
+                mu = d[2]
+                level0_drift = mu
+                ref = _euler_nd(x0, coef, c, mu, times, np.diff(dp["diff"], axis=-1), np.diff(dp["jump"], axis=-1), sigma, tenors)
+                got = x0.reshape(-1, 1) + (s["drift"] + s["diff"] + s["jump"])
+                wd.probes["c16.nd_single_path_checked"] += 1
+                scale = 1.0 + np.max(np.abs(ref))
+                if got.shape != ref.shape or not np.allclose(got, ref, rtol=1e-10, atol=1e-12 * scale):
+                    add(f"C16.euler|single-process path is not the Euler scheme of its driver path|{cls}",
+                        {"got": np.ravel(got).tolist()[:6], "expected": np.ravel(ref).tolist()[:6]})
+            else:
+                mu_f, level = d[2], d[3]
+                mu_c = drift_levels.get(level - 1) if level >= 2 else level0_drift
+                wd.probes["c16.nd_coupled_path_checked"] += 1
+                tot = s["drift"] + s["diff"] + s["jump"]
+                for ci, (name, mu) in enumerate((("fine", mu_f), ("coarse", mu_c))):
+                    if mu is None:
+                        wd.probes["c16.coarse_drift_unknown"] += 1
+                        continue
+                    ref = _euler_nd(x0, coef, c, mu, times, np.diff(dp["diff"][ci], axis=-1), np.diff(dp["jump"][ci], axis=-1), sigma, tenors)
+                    got = x0.reshape(-1, 1) + np.asarray(tot[ci])
+                    scale = 1.0 + np.max(np.abs(ref))
+                    if got.shape != ref.shape or not np.allclose(got, ref, rtol=1e-10, atol=1e-12 * scale):
+                        add(f"C16.euler|{name} component of the coupled pair is not the Euler scheme of its driver path|{cls}",
+                            {"level": level, "got": np.ravel(got).tolist()[:6], "expected": np.ravel(ref).tolist()[:6]})
+    key = hashlib.sha256(repr(("nd", sc["margins"], coef, m, sc["engine"], sc["max_level"], tuple(pattern))).encode()).hexdigest()[:16]
+    return {"violations": V, "errors": errors, "info": {"paths": len(samples)}, "key": key, "nontrivial": nontrivial}
